@@ -88,7 +88,20 @@ func propSend(t *rapid.T) {
 		}
 		total += n
 	}
-	switch rapid.IntRange(0, 4).Draw(t, "amount_class") {
+	// fee of spending everything the wallet holds (per-proof ppk summed over all keysets, rounded up once)
+	var ppkAll uint64
+	for k := range sp.Amounts {
+		ppkAll += uint64(len(sp.Amounts[k])) * uint64(sp.Fees[k])
+	}
+	feeAll := (ppkAll + 999) / 1000
+	switch rapid.IntRange(0, 5).Draw(t, "amount_class") {
+	case 5:
+		// exactly what is left when everything is spent at once (and one less)
+		if balance > feeAll+1 {
+			sp.Amount = balance - feeAll - rapid.Uint64Range(0, 1).Draw(t, "below_exact_bound")
+			break
+		}
+		sp.Amount = rapid.Uint64Range(1, balance).Draw(t, "amount")
 	case 0:
 		sp.Amount = rapid.Uint64Range(1, min(balance, 8)).Draw(t, "amount")
 	case 1:
@@ -232,7 +245,13 @@ func sendCase(t world.T, sp spec) {
 	for i := 0; i < 64; i++ {
 		reserve = append(reserve, activeFee)
 	}
-	mustSucceed := amount+ref.Fee(allPpk)+ref.Fee(reserve) <= balance
+	// "a send of no more than the balance minus the fees of spending every proof held there (and of the proofs sent)
+	// always succeeds": without fees included that bound is exact (swap everything, one fee); with fees included the
+	// proofs sent are not known beforehand and a reserve for 64 of them stands in
+	mustSucceed := amount+ref.Fee(allPpk)+ref.Fee(reserve) <= balance || (!includeFees && amount+ref.Fee(allPpk) <= balance)
+	if !includeFees && amount+ref.Fee(allPpk) <= balance && amount+ref.Fee(allPpk)+ref.Fee(reserve) > balance {
+		rec.Class("send_at_the_exact_bound_without_fees_included")
+	}
 	desc := fmt.Sprintf("contents %v (fees ppk per keyset %v), amount %d, include_fees=%v, swapped=%v", render(contents, feeOf), fees, amount, includeFees, swapped)
 	maxFee := uint64(0)
 	for _, f := range fees {
